@@ -646,6 +646,78 @@ func c08Special(c *Ctx, cs *Case, f, merged model.Forest, doc, fkey string) {
 			cs.Entry = ""
 		}
 	}
+	// ---------------- (c) the root "." is the target directory itself: verifying the working directory
+	{
+		dot := &model.Node{Name: ".", Kids: merged}
+		ddoc := gen.Spell(model.Forest{dot}, gen.Canonical)
+		for variant := 0; variant < 3; variant++ { // 0 identical, 1 one path missing, 2 one extra entry
+			j, err := mon.NewJail(c.TmpDir, true)
+			if err != nil {
+				return
+			}
+			ps := model.Paths(merged)
+			drop := ""
+			if variant == 1 {
+				drop = ps[r.Intn(len(ps))]
+			}
+			var wantMissing, wantExtra []string
+			for _, e := range model.FSEntries(merged, nil) {
+				if drop != "" && (e.Path == drop || strings.HasPrefix(e.Path, drop+"/")) {
+					wantMissing = append(wantMissing, e.Path)
+					continue
+				}
+				mkdirAll(j.Target + "/" + e.Path)
+			}
+			if variant == 2 {
+				mkdirAll(j.Target + "/zz_extra_entry")
+				wantExtra = []string{"zz_extra_entry"}
+			}
+			sort.Strings(wantMissing)
+			for ti, tgt := range []string{"", ".", explicitEmptyTarget, j.Target} {
+				for _, strict := range []bool{false, true} {
+					rt := verifyRoutes[(ti+variant)%2]
+					var o Outcome
+					withCwd(j.Target, func() {
+						o = verifyCall(rt, ddoc, dot, fsOpts(tgt, nil, false, false, false, strict))
+					})
+					cs.Entry = rt.Name + "[root is \".\"]"
+					c.Eval(gen.HashString(fkey+"\x00dotroot"+strconv.Itoa(variant*10+ti)+strconv.FormatBool(strict)), true)
+					c.Count("dot_root_verifications", 1)
+					det := map[string]any{"doc": ddoc, "variant": []string{"identical", "one path missing", "one extra entry"}[variant], "target_option": tgt, "strict": strict, "err": errStr(o.Err), "want_missing": wantMissing, "want_extra": wantExtra}
+					expectErr := len(wantMissing) > 0 || (strict && len(wantExtra) > 0)
+					switch {
+					case o.Panic != nil:
+						c.Violation(cs, "panic", "dot-root", det)
+					case !expectErr && o.Err != nil:
+						c.Violation(cs, "verdict.false-alarm", "dot-root", det)
+					case expectErr && o.Err == nil:
+						c.Violation(cs, "verdict.missed-difference", "dot-root", det)
+					case expectErr:
+						extra, missing, ok := parseVerifyErr(o.Err.Error())
+						strip := func(xs []string) []string {
+							var out []string
+							for _, x := range xs {
+								x = strings.TrimPrefix(filepath.ToSlash(x), j.Target+"/")
+								out = append(out, strings.TrimPrefix(x, "./"))
+							}
+							sort.Strings(out)
+							return out
+						}
+						we := wantExtra
+						if !strict {
+							we = nil
+						}
+						if !ok || !sameStrings(strip(missing), wantMissing) || !sameStrings(strip(extra), we) {
+							det["got_missing"], det["got_extra"] = strip(missing), strip(extra)
+							c.Violation(cs, "report.lists-differ", "dot-root", det)
+						}
+					}
+					cs.Entry = ""
+				}
+			}
+			j.Remove()
+		}
+	}
 	// ---------------- (b)
 	if len(merged) >= 1 {
 		for variant := 0; variant < 2; variant++ {
